@@ -344,14 +344,18 @@ func runScenario(sc *Scenario) {
 			empty := len(abs.cids) == 0
 			amu.Unlock()
 			switch op {
-			case "store":
+			case "store", "jump":
 				idx := last + 1
 				if empty {
 					idx = 1
 					if first > 0 {
 						idx = first
 					}
+					if op == "jump" {
+						idx += 5 // first append at an index other than the tail's base: empty-log base-index reset
+					}
 				}
+				op = "store"
 				cid := nextCid
 				nextCid++
 				l := wd.pool.Log(valpool.Ent{Idx: idx, Cid: cid, Sz: 1})
